@@ -134,8 +134,8 @@ func (s *fastSink) drain(expect int) [][]byte {
 }
 
 // drainUntil reads until done(datagrams so far) holds or two seconds have passed.
-func (s *fastSink) drainUntil(done func([][]byte) bool) [][]byte {
-	out := s.readAvailable(nil)
+func (s *fastSink) drainUntil(done func([][]byte) bool, have ...[]byte) [][]byte {
+	out := s.readAvailable(append([][]byte{}, have...))
 	deadline := time.Now().Add(2 * time.Second)
 	for !done(out) && time.Now().Before(deadline) {
 		time.Sleep(100 * time.Microsecond)
@@ -185,4 +185,37 @@ func metricKey(m m3thrift.Metric, withTS bool) string {
 		ts = fmt.Sprint(" ts=", m.Timestamp)
 	}
 	return fmt.Sprintf("%q type=%d count=%d gauge=%#x timer=%d tags=%v%s", m.Name, int(m.Value.MetricType), m.Value.Count, math.Float64bits(m.Value.Gauge), m.Value.Timer, tags, ts)
+}
+
+// userMetrics counts the decoded metrics in the datagrams that are not the reporter's own internal ones.
+func userMetrics(kind string, dgs [][]byte) int {
+	n := 0
+	for _, dg := range dgs {
+		if msg, err := decodeMessage(kind, dg); err == nil {
+			for _, m := range msg.Batch.Metrics {
+				if len(m.Name) < 14 || m.Name[:14] != "tally.internal" {
+					n++
+				}
+			}
+		}
+	}
+	return n
+}
+
+// closeBarrier is evaluated by the goroutine that called Close on an M3 reporter, immediately after Close
+// returned: everything queued must already have been handed to the socket (loopback delivery happens inside
+// the sender's send call, so it is readable now), and none of the reporter's goroutines may have work left.
+func closeBarrier(kind string, sinks []*fastSink, nwant int) (pre [][][]byte, clause, detail string) {
+	for _, s := range sinks {
+		pre = append(pre, s.readAvailable(nil))
+	}
+	if live := rtLiveLibraryThreads(); len(live) > 0 {
+		return pre, "reporter-goroutine-still-running-when-close-returned", fmt.Sprintf("threads started by the reporter that had not finished when Close returned: %v", live)
+	}
+	for d, dgs := range pre {
+		if n := userMetrics(kind, dgs); n < nwant {
+			return pre, "close-returned-before-everything-was-emitted", fmt.Sprintf("destination %d had received %d of the %d reported values at the moment Close returned", d, n, nwant)
+		}
+	}
+	return pre, "", ""
 }
